@@ -246,6 +246,24 @@ class CallGraph:
             return found[0]
         return None
 
+    def _alias_attrs(self, expr: ast.AST, func: FuncInfo) -> List[ast.Attribute]:
+        """as _alias_attr, also for a local assigned once from `a.x if c else a.y`: both attributes"""
+        one = self._alias_attr(expr, func)
+        if one is not None:
+            return [one]
+        if not isinstance(expr, ast.Name):
+            return []
+        found: List[ast.AST] = []
+        for node in ast.walk(func.node):
+            if isinstance(node, (ast.Assign, ast.AnnAssign)):
+                tgs = node.targets if isinstance(node, ast.Assign) else [node.target]
+                for tg in tgs:
+                    if isinstance(tg, ast.Name) and tg.id == expr.id and node.value is not None:
+                        found.append(node.value)
+        if len(found) == 1 and isinstance(found[0], ast.IfExp) and isinstance(found[0].body, ast.Attribute) and isinstance(found[0].orelse, ast.Attribute):
+            return [found[0].body, found[0].orelse]
+        return []
+
     def _record_writes(self, func: FuncInfo, node: ast.AST, env: TypeEnv) -> None:
         W = self.writes
 
@@ -254,6 +272,12 @@ class CallGraph:
                 W.append(Write(func, node, kind, tg.attr, self._recv(tg.value, env), tg.value))
             elif isinstance(tg, ast.Subscript):
                 base = tg.value
+                many = self._alias_attrs(base, func)
+                if len(many) > 1:
+                    k = {"store": "elem", "aug": "elem_aug", "del": "delelem"}[kind]
+                    for a_ in many:
+                        W.append(Write(func, node, k, a_.attr, self._recv(a_.value, env), a_.value, "alias"))
+                    return
                 al = self._alias_attr(base, func)
                 if al is not None:
                     base = al
